@@ -33,11 +33,35 @@ CONDITIONAL_SINK_OK = {
 }
 
 
+HELPER_SINKS: dict = {}      # bare name of a package helper -> the sink it (transitively) performs
+
+
+def _compute_helper_sinks(prog):
+    """module-level / nested helpers of the loader modules that commit an element themselves (call add_asset,
+    add_attacker ... directly or through another such helper)."""
+    HELPER_SINKS.clear()
+    cands = [g for g in prog.all_funcs() if not g.module.generated and g.cls is None]
+    changed = True
+    while changed:
+        changed = False
+        for g in cands:
+            if g.name in HELPER_SINKS or g.name in SINK_CALLS:
+                continue
+            for n in own_nodes(g.node):
+                k = _is_sink(n)
+                if k and k not in ('setattr', 'extras'):
+                    HELPER_SINKS[g.name] = k.split(':')[-1]
+                    changed = True
+                    break
+
+
 def _is_sink(n) -> str:
     if isinstance(n, ast.Call):
         nm = n.func.attr if isinstance(n.func, ast.Attribute) else (n.func.id if isinstance(n.func, ast.Name) else '')
         if nm in SINK_CALLS:
             return nm
+        if nm in HELPER_SINKS and isinstance(n.func, ast.Name):
+            return HELPER_SINKS[nm]
         if nm == 'append' and isinstance(n.func, ast.Attribute) and isinstance(n.func.value, ast.Attribute) \
                 and n.func.value.attr == 'entry_points':
             return 'entry_points.append'
@@ -49,8 +73,19 @@ def _is_sink(n) -> str:
 def run(ctx) -> list[Inst]:
     prog = ctx.prog
     insts = []
+    _compute_helper_sinks(prog)
+    scopes = []
     for (fname, props) in LOADERS:
-        f = prog.func(fname)
+        f0 = prog.func(fname)
+        # the loader itself, the functions nested in it, and module-level helpers of its module it reaches
+        group = [f0] + [g for g in prog.all_funcs() if g.short.startswith(f0.short + '.')]
+        for g in ctx.an.reachable([f0]).values():
+            if g.module is f0.module and g.cls is None and g not in group and g.name in HELPER_SINKS:
+                group.append(g)
+        scopes.append((fname, props, group))
+    for (fname, props, group) in scopes:
+      total_sink_loops = 0
+      for f in group:
         cfg = ctx.cfg(f)
         rel = f.module.relpath
         loops = [n for n in cfg.nodes if n.kind == 'for']
@@ -112,12 +147,13 @@ def run(ctx) -> list[Inst]:
                      f"the loop header through line {bad.lineno} ('{stmt_text(bad.ast, 60)}') without "
                      f"{'/'.join(sorted(kinds))}: that input element is silently dropped, unlike in the native loader"),
                 file=rel, line=bad.lineno, props=props))
-        if nsink_loops == 0:
-            raise AnalysisError(f'R15: no element loop with a model sink recognised in {fname}')
-        insts += _order_and_break(ctx, f, fname, props)
+        total_sink_loops += nsink_loops
+        if nsink_loops:
+            insts += _order_and_break(ctx, f, fname, props)
         # ---------------------------------------------------------------- ENTRY
         for n in own_nodes(f.node):
-            if isinstance(n, ast.Call) and _is_sink(n) == 'entry_points.append':
+            if isinstance(n, ast.Call) and _is_sink(n) == 'entry_points.append' \
+                    and isinstance(n.func, ast.Attribute) and n.func.attr == 'append':
                 node = cfg.owner(n)
                 construct = f'ENTRY: {stmt_text(n, 70)}'
                 keyed = False
@@ -146,9 +182,14 @@ def run(ctx) -> list[Inst]:
                              "asset give two tuples for that asset, and Model.attacker_to_dict keeps only the "
                              "last one (use AttackerAttachment.add_entry_point)"),
                         file=rel, line=n.lineno, props=props))
-            if isinstance(n, ast.Call) and _is_sink(n) == 'add_entry_point':
+            if isinstance(n, ast.Call) and _is_sink(n) == 'add_entry_point' \
+                    and isinstance(n.func, ast.Attribute) and n.func.attr == 'add_entry_point':
                 insts.append(Inst(RULE, fname, f'ENTRY: {stmt_text(n, 70)}', 'ok', file=rel, line=n.lineno,
                                   props=props))
+      if total_sink_loops == 0:
+        insts.append(Inst(RULE, fname, 'EVERY: element loops with model sinks', 'unproven',
+                          msg='no element loop with a model sink recognised in the loader or its helpers',
+                          file=group[0].module.relpath, line=group[0].node.lineno, props=props))
     # attach_attackers transfers the model's attackers and their entry points into the graph: same two rules
     if prog.has_func('AttackGraph.attach_attackers'):
         insts += _order_and_break(ctx, prog.func('AttackGraph.attach_attackers'), 'AttackGraph.attach_attackers',
